@@ -25,6 +25,7 @@ type Engine struct {
 	mutGlobal map[*ssa.Global]bool
 	globalInit map[*ssa.Global]*globalInit
 	coverReturns bool // also check that every return is reachable under the contract (thorough tier)
+	masks        map[string]Expr // open known findings of the property being checked that carry a mask
 	srcCache  map[string][]byte
 	posNodes  map[*ssa.Function]map[token.Pos]ast.Node
 	fatals    []string
